@@ -14,8 +14,43 @@ from .core import frac, call_real
 INT_GATES = ["cx", "cz", "cy", "ch", "ecr"]
 
 
+def gen_dense(rng, tier, exact=True):
+    """few qubits, many two-qubit gates on repeated pairs, tight width, both cut kinds: plans that wire-cut a qubit and later
+    gate-cut a gate on the same qubit (and vice versa) are optimal here"""
+    nq = rng.randint(3, 4)
+    instrs = []
+    for _ in range(rng.randint(3, 6 if tier == "quick" else 7)):
+        qs = rng.sample(range(nq), 2)
+        if exact:
+            instrs.append({"name": rng.choice(INT_GATES), "qubits": qs})
+        else:
+            instrs.append({"name": rng.choice(["swap", "cx", "cz", "iswap"]), "qubits": qs})
+    return {"nq": nq, "instrs": instrs, "seed": rng.choice([0, 1, rng.randrange(1 << 30)]), "max_gamma": 1e6, "max_backjumps": None,
+            "gate_lo": True, "wire_lo": True, "width": 2, "exact": exact}
+
+
+def gen_tie_rich(rng, tier):
+    """symmetric circuits of identical gates (chains, stars, rings): many equal-cost plans, so the random tie-break decides"""
+    nq = rng.randint(4, 7)
+    shape = rng.choice(["chain", "star", "ring"])
+    pairs = {"chain": [(i, i + 1) for i in range(nq - 1)], "star": [(0, i) for i in range(1, nq)],
+             "ring": [(i, (i + 1) % nq) for i in range(nq)]}[shape]
+    if rng.random() < 0.5:
+        pairs = pairs + pairs[: rng.randint(1, 2)]
+    instrs = [{"name": "cx", "qubits": list(p)} for p in pairs]
+    glo, wlo = rng.choice([(False, True), (True, True), (False, True)])
+    return {"nq": nq, "instrs": instrs, "seed": rng.choice([0, 0, 1, 2, rng.randrange(1 << 30)]), "max_gamma": 1024.0,
+            "max_backjumps": rng.choice([None, 10000]), "gate_lo": glo, "wire_lo": wlo, "width": rng.randint(2, max(2, nq // 2 + 1)), "exact": True}
+
+
 def gen_case(rng, tier, exact=None, restricted=None):
     """A find_cuts request.  exact=True: only gates with integer kappa (float products exact, tie-breaks reproducible)."""
+    if restricted is None and exact in (None, True):
+        r0 = rng.random()
+        if r0 < 0.15:
+            return gen_dense(rng, tier, exact=(exact is True) or rng.random() < 0.6)
+        if r0 < 0.27:
+            return gen_tie_rich(rng, tier)
     if exact is None:
         exact = rng.random() < 0.6
     nq = rng.randint(2, 6 if tier == "quick" else 8)
@@ -52,7 +87,7 @@ def gen_case(rng, tier, exact=None, restricted=None):
         mg = rng.choice([1024.0, 1e6])
         mb = rng.choice([None, 10000])
     glo, wlo = rng.choice([(True, True), (True, True), (True, False), (False, True)])
-    p = {"nq": nq, "instrs": instrs, "seed": rng.randrange(1 << 30), "max_gamma": mg, "max_backjumps": mb, "gate_lo": glo, "wire_lo": wlo,
+    p = {"nq": nq, "instrs": instrs, "seed": rng.choice([0, rng.randrange(1 << 30), rng.randrange(1 << 30), rng.randrange(1 << 30)]), "max_gamma": mg, "max_backjumps": mb, "gate_lo": glo, "wire_lo": wlo,
          "width": width, "exact": exact}
     r = rng.random()
     if r < 0.02:
